@@ -437,10 +437,27 @@ func runSchedules(r *vlib.Rand, n int, concurrent bool, res *result) {
 			res.combo(fmt.Sprintf("sched seq first=%s ins=%d outs=%d", reqs[order[0]].label, min(len(t.In), 3), min(len(t.Out), 3)))
 			continue
 		}
+		// one Tx object, or (every other schedule) three independent transactions hashed at the same time - what a node
+		// does when it verifies several inputs / transactions on several cores: no digest may depend on what another
+		// goroutine is hashing, on this object or on another one
+		type objSet struct {
+			t     *reftx.Tx
+			spent []reftx.TxOut
+			reqs  []request
+			tx    *btc.Tx
+		}
+		sets := []objSet{{t, spent, reqs, tx}}
+		if s%2 == 1 {
+			for k := 0; k < 2; k++ {
+				t2, spent2 := randTx(r, 12, 12)
+				sets = append(sets, objSet{t2, spent2, buildRequests(r, t2, spent2, 50), toBtc(t2, spent2)})
+			}
+			res.count("schedules_concurrent_over_three_tx_objects")
+		}
 		var wg sync.WaitGroup
 		orders := make([][]int, 8)
 		for g := range orders {
-			orders[g] = r.Perm(len(reqs))
+			orders[g] = r.Perm(len(sets[g%len(sets)].reqs))
 		}
 		start := make(chan struct{})
 		for g := 0; g < 8; g++ {
@@ -448,26 +465,33 @@ func runSchedules(r *vlib.Rand, n int, concurrent bool, res *result) {
 			go func(g int) {
 				defer wg.Done()
 				<-start
+				o := &sets[g%len(sets)]
 				for pos, k := range orders[g] {
-					q := &reqs[k]
-					got, pan := recoverCall(func() []byte { return issue(tx, q) })
+					q := &o.reqs[k]
+					got, pan := recoverCall(func() []byte { return issue(o.tx, q) })
 					res.count("schedule_requests_" + mode)
 					res.count("digests")
 					if pan != "" {
-						res.report("panic/schedule/"+q.label, "digest request panics inside a concurrent schedule: "+pan, q.witness(t, spent, orders[g], pos, nil))
+						res.report("panic/schedule/"+q.label, "digest request panics inside a concurrent schedule: "+pan, q.witness(o.t, o.spent, orders[g], pos, nil))
 						continue
 					}
 					if q.want != nil && !bytes.Equal(got, q.want) {
-						res.report("cache-schedule-mismatch/concurrent/"+q.label, "a digest requested concurrently with other requests on the same Tx object differs from the cache-free reference", q.witness(t, spent, orders[g], pos, got))
+						what := "a digest requested concurrently with other requests on the same Tx object differs from the cache-free reference"
+						if len(sets) > 1 {
+							what = "a digest requested while other goroutines request digests (same and other Tx objects) differs from the cache-free reference"
+						}
+						res.report("cache-schedule-mismatch/concurrent/"+q.label, what, q.witness(o.t, o.spent, orders[g], pos, got))
 					}
 				}
 			}(g)
 		}
 		close(start)
 		wg.Wait()
-		for _, q := range reqs {
-			if q.want != nil {
-				res.key(q.want)
+		for _, o := range sets {
+			for _, q := range o.reqs {
+				if q.want != nil {
+					res.key(q.want)
+				}
 			}
 		}
 		res.combo(fmt.Sprintf("sched conc ins=%d outs=%d", min(len(t.In), 3), min(len(t.Out), 3)))
@@ -940,6 +964,21 @@ func child(args []string) {
 		runSchedules(r, n, true, res)
 	case "spend":
 		runSpends(r, n, res)
+	case "spend-conc":
+		// the same end-to-end spends from six goroutines at once (a node verifies the inputs of a block on several cores):
+		// the digests computed inside VerifyTxScript (tapleaf / tapbranch / sighash hashers, per-tx caches) must not
+		// depend on what the other goroutines hash
+		var wg sync.WaitGroup
+		for g := 0; g < 6; g++ {
+			wg.Add(1)
+			rg := r.Fork(fmt.Sprintf("g%d", g))
+			go func() {
+				defer wg.Done()
+				runSpends(rg, n/6, res)
+			}()
+		}
+		wg.Wait()
+		res.count("spend_batches_run_by_six_goroutines")
 	}
 	res.Keys = vlib.Hex(res.keys.Bytes())
 	for k := range res.combos {
@@ -1002,6 +1041,9 @@ func main() {
 	for p := 0; p < cparts; p++ {
 		jobs = append(jobs, job{"sched-conc", p, run.N(200, 20000) / cparts, true})
 	}
+	for p := 0; p < 2; p++ {
+		jobs = append(jobs, job{"spend-conc", p, run.N(900, 24000) / 2, true})
+	}
 	tmp, _ := os.MkdirTemp("", "c02")
 	defer os.RemoveAll(tmp)
 	classes := map[string]int64{}
@@ -1029,7 +1071,7 @@ func main() {
 		if strings.Contains(outs, "WARNING: DATA RACE") {
 			for _, rr := range vlib.ParseRaces(outs, "github.com/piotrnar/gocoin/") {
 				d := map[string]interface{}{"child": desc, "report": rr.Block, "occurrences": rr.N}
-				run.Violation("race:"+rr.Sig, "data race between concurrent digest requests on one Tx: "+rr.Sig, d)
+				run.Violation("race:"+rr.Sig, "data race between concurrent digest requests: "+rr.Sig, d)
 				classes["race:"+rr.Sig] += int64(rr.N)
 			}
 		}
